@@ -3,8 +3,8 @@ constructors of commonroad-io.  (A spec is what is stored in a replay; `build(sp
 
 "Schema-expressible" (the property's own restriction) means here: the scenario can be written as a 2020a document at all —
   * >= 1 lanelet, >= 1 planning problem; bounds with >= 2 points, polygons with >= 3 vertices,
-  * every enum member used has a value that the XSD enumerates (weather 'clear', time of day 'noon', foreign traffic-sign
-    ids ... have no schema value and are left out; the candidate lists are computed from the shipped XSD on every run),
+  * every enum member used has a value that the XSD enumerates (weather 'clear', time of day 'noon', a few foreign
+    traffic-sign ids ... have no schema value and are left out: fixed lists below, proved against the XSD in C03_enum_*),
   * initial states at time step 0 with position+orientation (planning problems: + velocity, yaw rate, slip angle),
     trajectory / series states at time steps >= 1, goal states with *interval* time and interval orientation/velocity,
     state attributes that the `state` type names, goal positions of one shape kind,
@@ -21,34 +21,23 @@ import os
 import numpy as np
 
 XSD_REL = "commonroad/scenario_definition/xml_definition_files/XML_commonRoad_XSD.xsd"
-XS = "{http://www.w3.org/2001/XMLSchema}"
-
-_enum_cache = {}
-
-
-def schema_enums(repo):
-    """simpleType name -> list of enumeration values; anonymous ones under 'parent/element'."""
-    path = os.path.join(repo, XSD_REL)
-    key = (path, os.path.getmtime(path))
-    if key in _enum_cache:
-        return _enum_cache[key]
-    from lxml import etree
-    root = etree.parse(path).getroot()
-    out = {}
-    for st in root.iter(XS + "simpleType"):
-        name = st.get("name")
-        if name is None:
-            p = st.getparent()
-            name = "@" + p.get("name", "?")
-        vals = [e.get("value") for e in st.iter(XS + "enumeration")]
-        if vals:
-            out[name] = vals
-    tag = [ct for ct in root.iter(XS + "complexType") if ct.get("name") == "tag"][0]
-    out["#tag"] = [e.get("name") for e in tag.iter(XS + "element")]
-    st = [ct for ct in root.iter(XS + "complexType") if ct.get("name") == "state"][0]
-    out["#state"] = [e.get("name") for e in st.iter(XS + "element")]
-    _enum_cache[key] = out
-    return out
+# Members whose value the 2020a XSD does not enumerate (not schema-expressible).  The lists are fixed here (and repeated in
+# lean/CRProps/C03.lean, theorems C03_enum_*) instead of being filtered against the XSD at run time, so that a member whose
+# written value *changes* is still generated and caught.
+TIME_OF_DAY = ["NIGHT", "UNKNOWN"]
+WEATHER = ["LIGHT_RAIN", "HEAVY_RAIN", "FOG", "SNOW", "HAIL"]
+UNDERGROUND_NOT = ["UNKNOWN"]
+OBSTACLE_STATIC = ["UNKNOWN", "PARKED_VEHICLE", "CONSTRUCTION_ZONE", "ROAD_BOUNDARY"]
+OBSTACLE_DYNAMIC = ["UNKNOWN", "CAR", "TRUCK", "BUS", "MOTORCYCLE", "BICYCLE", "PEDESTRIAN", "PRIORITY_VEHICLE", "TRAIN", "TAXI"]
+OBSTACLE_ENVIRONMENT = ["UNKNOWN", "BUILDING", "PILLAR", "MEDIAN_STRIP"]
+SIGN_NOT = {  # besides every UNKNOWN (value "")
+    ("TrafficSignIDArgentina", "MAX_SPEED"), ("TrafficSignIDAustralia", "STOP"), ("TrafficSignIDAustralia", "YIELD"),
+    ("TrafficSignIDBelgium", "MAX_SPEED"), ("TrafficSignIDCroatia", "MAX_SPEED"), ("TrafficSignIDFrance", "MAX_SPEED"),
+    ("TrafficSignIDGreece", "MAX_SPEED"), ("TrafficSignIDRussia", "MAX_SPEED"),
+    ("TrafficSignIDUsa", "STOP"), ("TrafficSignIDUsa", "STOP_4_WAY"), ("TrafficSignIDUsa", "NO_TURN_ON_RED"), ("TrafficSignIDUsa", "ONEWAY"),
+} | {(c, m) for c in ("TrafficSignIDGermany", "TrafficSignIDZamunda")
+     for m in ("KEEP_STRAIGHT_AHEAD", "LANE_BOARD_3_LANES_NO_OPPOSITE_WITH_SIGNS", "ADDITION_SCHOOL", "ADDITION_KINDERGARTEN",
+               "ADDITION_RETIREMENT_HOME", "ADDITION_HOSPITAL")}
 
 
 # ------------------------------------------------------------------------------------------------ numbers
@@ -226,7 +215,6 @@ def gen_spec(r, repo, size=None):
     from commonroad.scenario.scenario import Tag, TimeOfDay, Underground, Weather
     from commonroad.scenario.traffic_light import TrafficLightDirection, TrafficLightState
     from commonroad.scenario import traffic_sign as ts_mod
-    en = schema_enums(repo)
     size = size if size is not None else r.choice([0, 1, 1, 2, 2, 3])
     ids = Ids(r)
     spec = {"precision": r.randint(1, 12), "size": size}
@@ -234,7 +222,7 @@ def gen_spec(r, repo, size=None):
     spec["author"] = r.choice(["A", "Jane Doe, John <j@x.org>", "Müller & Söhne", "a\"b'c", "", "x" * 40])
     spec["affiliation"] = r.choice(["TUM", "", "T&U <M>", "Technical University of Munich, Germany"])
     spec["source"] = r.choice(["test", "", "OpenStreetMap (OSM), SUMO", "a&b"])
-    tags = [t for t in Tag if t.value in en["#tag"]]
+    tags = list(Tag)
     spec["tags"] = sorted(t.name for t in r.sample(tags, r.choice([0, 1, 2, 3, len(tags)])))
     spec["benchmark"] = r.choice([["ZAM", "Test", 1, 1, "T", 1], ["DEU", "Muc", 30, 2, "T", 1], ["USA", "Lanker", 1, 1, "S", 3],
                                   ["ZAM", "Tjunction", 1, None, None, None]])
@@ -248,9 +236,8 @@ def gen_spec(r, repo, size=None):
             loc["geo"] = {"ref": r.choice(["+proj=utm +zone=32 +ellps=WGS84", "", "+proj=tmerc +lat_0=0 <x> & y", "EPSG:25832"]),
                           "x": num(r), "y": num(r), "rot": angle(r), "scale": pos_num(r)}
         if r.random() < 0.6:
-            tod = [t.name for t in TimeOfDay if t.value in en["timeOfDay"]]
-            we = [t.name for t in Weather if t.value in en["weather"]]
-            un = [t.name for t in Underground if t.value in en["underground"]]
+            tod, we = TIME_OF_DAY, WEATHER
+            un = [t.name for t in Underground if t.name not in UNDERGROUND_NOT]
             loc["env"] = {"h": r.choice([0, 7, 12, 23, 24 if False else 9]), "m": r.choice([0, 5, 30, 59]), "tod": r.choice(tod),
                           "weather": r.choice(we), "underground": r.choice(un)}
         spec["location"] = loc
@@ -262,9 +249,9 @@ def gen_spec(r, repo, size=None):
     sids = [ids.new() for _ in range(n_s)]
     tids = [ids.new() for _ in range(n_t)]
 
-    lm_all = [m.name for m in LineMarking if m.value in en["lineMarking"]]
-    lt_all = [m.name for m in LaneletType if m.value in en["laneletType"]]
-    ru_all = [m.name for m in RoadUser if m.value in en["vehicleType"]]
+    lm_all = [m.name for m in LineMarking]
+    lt_all = [m.name for m in LaneletType]
+    ru_all = [m.name for m in RoadUser]
 
     def subset(pool, pmax=3, p0=0.5):
         if not pool or r.random() < p0:
@@ -290,7 +277,7 @@ def gen_spec(r, repo, size=None):
               # the reader walks adjacent_right/left chains to place signs/lights and never returns on a cyclic chain
               "adjl": [r.choice(lids[:i]), r.random() < 0.5] if lids[:i] and r.random() < 0.4 else None,
               "adjr": [r.choice(lids[i + 1:]), r.random() < 0.5] if lids[i + 1:] and r.random() < 0.4 else None,
-              "lml": r.choice(lm_all + ["UNKNOWN"]), "lmr": r.choice(lm_all + ["UNKNOWN"]),
+              "lml": r.choice(lm_all), "lmr": r.choice(lm_all),
               "types": subset(lt_all, 3, 0.3), "oneway": subset(ru_all, 3, 0.6), "bidir": subset(ru_all, 2, 0.7),
               "signs": subset(sids, 2, 0.4), "lights": subset(tids, 2, 0.4), "stop": None}
         if r.random() < 0.35:
@@ -317,7 +304,7 @@ def gen_spec(r, repo, size=None):
         c = getattr(ts_mod, cname)
         if isinstance(c, type) and cname.startswith("TrafficSignID") and cname != "TrafficSignID":
             for m in c:
-                if str(m.value) in en["trafficSignID"]:
+                if m.name != "UNKNOWN" and (cname, m.name) not in SIGN_NOT:
                     sign_pool.append([cname, m.name])
     spec["signs"] = []
     for sid in sids:
@@ -327,8 +314,8 @@ def gen_spec(r, repo, size=None):
             els.append({"cls": c, "name": m, "vals": r.choice([[], ["50"], ["13.88", "x"], ["1e-05"], ["<&>"], [""]])})
         spec["signs"].append({"id": sid, "els": els, "pos": pt(r) if r.random() < 0.7 else None,
                               "virtual": r.choice([True, False, False, None]), "first": subset(lids, 2, 0.3)})
-    col = [m.name for m in TrafficLightState if m.value in en["trafficLightColor"]]
-    dirs = [m.name for m in TrafficLightDirection if m.value in en.get("@direction", [])]
+    col = [m.name for m in TrafficLightState]
+    dirs = [m.name for m in TrafficLightDirection]
     spec["lights"] = []
     for tid in tids:
         cyc = [[r.choice(col), r.choice([1, 1, 5, 30, 10 ** 6, 10 ** 12])] for _ in range(r.randint(1, 4))]
@@ -347,10 +334,8 @@ def gen_spec(r, repo, size=None):
                     inc["left_of"] = r.choice(o)
             spec["intersections"].append({"id": ids.new(), "incomings": incs, "crossings": subset(lids, 2, 0.6)})
 
-    st_types = [m.name for m in ObstacleType if m.value in en["obstacleTypeStatic"]]
-    dy_types = [m.name for m in ObstacleType if m.value in en["obstacleTypeDynamic"]]
-    en_types = [m.name for m in ObstacleType if m.value in en["obstacleTypeEnvironment"]]
-    schema_state = set(en["#state"])
+    st_types, dy_types, en_types = OBSTACLE_STATIC, OBSTACLE_DYNAMIC, OBSTACLE_ENVIRONMENT
+    schema_state = None
     n_o = [0, 1, 2, 3][size]
     spec["static"] = [{"id": ids.new(), "type": r.choice(st_types), "shape": gen_shape(r),
                        "init": gen_state(r, 0, "InitialState", True, uncertain_ok=False, schema_state=schema_state)}
